@@ -17,6 +17,8 @@ from vcheck.core import Task, Violation
 ID = 'C12'
 LEVEL = 'exploration'
 BUDGET = {'quick': 45, 'thorough': 420}
+# deterministic sub-checks repeated in a `python -O` child (core.optimized_child)
+OPT_SUBS = ('override', 'localzone', 'foldpairs')
 RULE = ('instants = integer microseconds over the whole datetime range (2-day '
         'margin at both ends), biased to range ends, the epoch, leap days and '
         'microsecond != 0; tz in {naive, five spellings of UTC, fixed offsets '
